@@ -358,7 +358,7 @@ pub fn run(ctx: &mut Ctx) {
     ctx.check::<ACase>(
         "world",
         "programs of 4..50 world ops (dials with/without peer id in both directions, swarm-to-swarm connects, phantom inbound connections, transport outcomes, closes, block/unblock/allow/disallow of the 8 pool peers (half of the time aimed at a peer with a live connection or pending dial), generated schedules) over 1..3 swarms whose behaviour is #[derive(NetworkBehaviour)] {block, probe} / {allow, probe} / {probe, block, allow} with generated initial lists; oracle: no ConnectionEstablished (FromSwarm at the probe, SwarmEvent) for a peer that is blocked / not allowed when it is reported; at quiescence every connection that existed when its peer became blocked / disallowed has been closed and is_connected(p) is false for every forbidden p; non-trivial = a peer became forbidden while a connection to it was established or a dial to it pending; distinct by case hash",
-        ctx.n(40_000, 1_200_000),
+        ctx.n(60_000, 2_000_000),
         &move || strategy(max_ops),
         &check,
     );
